@@ -492,13 +492,19 @@ def read_stream(data: bytes, bufsiz: int) -> str:
     return " | ".join(out) if out else "<nothing>"
 
 
+def getobj_pdf(spelling: bytes, eol: bytes, pad: bytes) -> Tuple[bytes, int]:
+    """(file, offset of object 5 as recorded in its cross-reference table)"""
+    objs = {1: {"Type": "Catalog", "Pages": W.Ref(2)}, 2: {"Type": "Pages", "Kids": [], "Count": 0},
+            5: W.Raw(pad + spelling)}
+    pdf = W.build_pdf(objs, 1, eol=eol)
+    return pdf, pdf.index(b"5 0 obj")
+
+
 def read_getobj(spelling: bytes, bufsiz: int, eol: bytes, pad: bytes) -> str:
     from pdfminer.pdfdocument import PDFDocument
     from pdfminer.pdfparser import PDFParser
     from pdfminer.psparser import PSBaseParser
-    objs = {1: {"Type": "Catalog", "Pages": W.Ref(2)}, 2: {"Type": "Pages", "Kids": [], "Count": 0},
-            5: W.Raw(pad + spelling)}
-    pdf = W.build_pdf(objs, 1, eol=eol)
+    pdf, _ = getobj_pdf(spelling, eol, pad)
     old = PSBaseParser.BUFSIZ
     PSBaseParser.BUFSIZ = bufsiz
     try:
@@ -653,6 +659,9 @@ def check_case(ctx: C.Ctx, batch: Batch, case: Case, origin: str, seen_fail: Set
     batch.add("spec.spell " + C.hx(case.spelling), "spec.spell", case.to_json(), exp)
     if case.reader == "stream":
         batch.add("model.obj %d %s" % (case.bufsiz, C.hx(case.data())), "model.obj", case.to_json(), got)
+    else:
+        pdf, off = getobj_pdf(case.spelling + case.trail, case.eol, case.pad)
+        batch.add("model.getobj %d 5 %s" % (case.bufsiz, C.hx(pdf[off:])), "model.getobj", case.to_json(), got)
 
 
 # ------------------------------------------------------------------ run
@@ -749,3 +758,9 @@ def check_mutant(ctx: C.Ctx, batch: Batch, case: Case, rng) -> None:
         return
     batch.add("model.obj %d %s" % (case.bufsiz, C.hx(data)), "model.obj",
               {"data": data.hex(), "bufsiz": case.bufsiz, "mutant": True}, got)
+    if rng.random() < 0.5 and b"stream" not in data and b"obj" not in data:
+        got2 = read_getobj(data, case.bufsiz, case.eol, b"")
+        pdf, off = getobj_pdf(data, case.eol, b"")
+        ctx.case((data, "mutant-getobj", case.bufsiz), True, branch="reader:mutant-getobj")
+        batch.add("model.getobj %d 5 %s" % (case.bufsiz, C.hx(pdf[off:])), "model.getobj",
+                  {"data": data.hex(), "bufsiz": case.bufsiz, "mutant": True, "eol": case.eol.hex()}, got2)
